@@ -45,6 +45,9 @@ def propose(g, model, name):
         base["overwrite"] = r.random() < 0.3
         # the process has a past: an earlier save of ANOTHER object failed part-way (a metadata value no format can take)
         base["failed_save_before"] = r.choice([None, None, None, "json", "json", "hgx"])
+        # a third of the round trips use one fixed stem and leave their file behind: the directory then holds an OLDER
+        # save of the other format next to the file being written and read (data.hgx next to data.json)
+        base["shared_stem"] = r.random() < 0.33
     if name == "d_faults":
         base["stride1"] = 600
     return base
@@ -174,7 +177,7 @@ def make_handlers(ctx):
         except Exception:
             return "unobservable"
         ctx.n += 1
-        name = f"obj{ctx.n}.{fmt}"
+        name = f"obj{ctx.n}.{fmt}" if not op.get("shared_stem") else f"data.{fmt}"
         path = fs.path(name)
         if op.get("overwrite"):
             fs.put(name, b"[\n" + b'{"junk":"' + b"x" * 9000 + b'"}\n]')
@@ -232,7 +235,10 @@ def make_handlers(ctx):
             ctx.stats["saved_after_removal"] += 1
         if len(ctx.twins.get(a, [])) < 2:
             ctx.twins.setdefault(a, []).append([new, fmt])
-        fs.remove(name)
+        if not op.get("shared_stem"):
+            fs.remove(name)
+        else:
+            ctx.stats["files_left_behind"] = ctx.stats.get("files_left_behind", 0) + 1
         return fmt
 
     def faults(w, a, op):
